@@ -66,11 +66,11 @@ class CFG(object):
         """set of node ids that dominate nid (including itself)"""
         out = []
         d = self.idom
-        if nid not in d:
+        if nid not in d and nid != self.entry.id:
             return []   # unreachable
         while True:
             out.append(nid)
-            p = d[nid]
+            p = d.get(nid, nid)
             if p == nid:
                 break
             nid = p
@@ -79,11 +79,11 @@ class CFG(object):
     def postdominators(self, nid):
         out = []
         d = self.ipdom
-        if nid not in d:
+        if nid not in d and nid != self.exit.id:
             return []
         while True:
             out.append(nid)
-            p = d[nid]
+            p = d.get(nid, nid)
             if p == nid:
                 break
             nid = p
